@@ -147,7 +147,68 @@ func isLenOf(v, s ssa.Value) bool {
 		return false
 	}
 	bi, ok := c.Call.Value.(*ssa.Builtin)
-	return ok && bi.Name() == "len" && c.Call.Args[0] == s
+	return ok && bi.Name() == "len" && sameSliceVal(c.Call.Args[0], s)
+}
+
+// sameSliceVal: a and b denote the same slice value: the same SSA value, or two loads of the same field of the
+// same local struct whose field is not stored to in the function and whose address escapes only through calls
+// that complete before both loads (e.g. a decoder filling the struct).
+func sameSliceVal(a, b ssa.Value) bool {
+	if a == b {
+		return true
+	}
+	la, ok1 := a.(*ssa.UnOp)
+	lb, ok2 := b.(*ssa.UnOp)
+	if !ok1 || !ok2 || la.Op != token.MUL || lb.Op != token.MUL {
+		return false
+	}
+	fa, ok1 := la.X.(*ssa.FieldAddr)
+	fb, ok2 := lb.X.(*ssa.FieldAddr)
+	if !ok1 || !ok2 || fa.Field != fb.Field || fa.X != fb.X {
+		return false
+	}
+	al, ok := fa.X.(*ssa.Alloc)
+	if !ok {
+		return false
+	}
+	for _, ref := range *al.Referrers() {
+		switch x := ref.(type) {
+		case *ssa.FieldAddr:
+			if x.Field != fa.Field {
+				continue
+			}
+			for _, r2 := range *x.Referrers() {
+				switch r2.(type) {
+				case *ssa.UnOp, *ssa.DebugRef:
+				default:
+					return false
+				}
+			}
+		case *ssa.DebugRef:
+		case *ssa.UnOp:
+		case *ssa.Store:
+			if x.Addr == ssa.Value(al) && !(instrDominates(x, la) && instrDominates(x, lb)) {
+				return false
+			}
+		case *ssa.MakeInterface:
+			// escapes into a call: every use of the interface value must be a call that precedes both loads
+			for _, r2 := range *x.Referrers() {
+				in, ok := r2.(*ssa.Call)
+				if !ok || !(instrDominates(in, la) && instrDominates(in, lb)) {
+					if _, isd := r2.(*ssa.DebugRef); !isd {
+						return false
+					}
+				}
+			}
+		case *ssa.Call:
+			if !(instrDominates(x, la) && instrDominates(x, lb)) {
+				return false
+			}
+		default:
+			return false
+		}
+	}
+	return true
 }
 
 // splitAdd: v = base + c (c constant, possibly 0).
@@ -244,6 +305,21 @@ func provesLE(env *IntEnv, E ssa.Value, extra int64, s ssa.Value, b *ssa.BasicBl
 		mul := M.(*ssa.BinOp)
 		for _, pair := range [][2]ssa.Value{{mul.X, mul.Y}, {mul.Y, mul.X}} {
 			i, K := pair[0], pair[1]
+			// (i+1)*K  ==  i*K + K
+			if ib, ic := splitAddConst(i); ic == 1 && e == nil {
+				if init, step, ok := loopCounter(ib); ok && step == 1 && init >= 0 && env.At(K, b).Lo >= 1 && extra == 0 {
+					bound := hasGuard(b, func(op token.Token, x, y ssa.Value) bool {
+						if op != token.LSS || x != ib {
+							return false
+						}
+						q, okq := y.(*ssa.BinOp)
+						return okq && q.Op == token.QUO && isLenOf(q.X, s) && symEq(q.Y, K, 0)
+					})
+					if bound {
+						return "lemma B ((i+1)*K <= len for i < len/K)", true
+					}
+				}
+			}
 			init, step, ok := loopCounter(i)
 			if !ok || step != 1 || init < 0 {
 				continue
